@@ -8,6 +8,7 @@ import Proofs.TagLen
 import Proofs.X690Prim
 import Proofs.X690Der
 import Proofs.Kernels
+import Proofs.KernelReal
 
 namespace Asn1.C03
 
@@ -141,7 +142,18 @@ theorem source_oid_is_x690 (arcs : List Nat) :
     GenK.oidEncode (Kernels.ints arcs) = Kernels.liftOid (X690.oidOctets arcs) := by
   rw [Kernels.oidEncode_kernel, oid_is_x690]
 
-/-- non-vacuity: [APPLICATION 16384] constructed; length 300; OID 2.999.3 -/
+/-- binary REAL contents written by the source (the body of `RealEncoder.encodeValue` from the first octet to the
+    mantissa octets, encoding base 2 - the BER default and the base CER/DER force; the split of the mantissa into
+    sign and magnitude by `_dropFloatingPoint`, which is float-capable code, is modelled and compared, not translated)
+    = X.690 8.5/11.3: first octet with sign, base and exponent-length bits, exponent in minimal two's complement with
+    its length octet when longer than three, odd mantissa; refusal beyond 255 exponent octets -/
+theorem source_real_is_x690 (m e : Int) (hm : m ≠ 0) :
+    GenK.realBin (if m < 0 then -1 else 1) (m.natAbs : Int) 2 e = Kernels.liftReal (X690.realOctets (.fin m 2 e)) := by
+  rw [Kernels.realBin_kernel m e hm, real_is_x690]
+
+/-- non-vacuity: [APPLICATION 16384] constructed; length 300; OID 2.999.3; -5 * 2^3, 12 * 2^298 = 3 * 2^300 (two exponent octets) -/
+example : GenK.realBin (-1) 5 2 3 = .ok [192, 3, 5] := by rfl
+example : GenK.realBin 1 12 2 298 = .ok [129, 1, 44, 3] := by rfl
 example : GenK.encodeTag [64, 0, 16384] true = .ok [127, 129, 128, 0] := by rfl
 example : GenK.encodeLength false 300 true = .ok [130, 1, 44] := by rfl
 example : GenK.toBytes (-129) true 0 = .ok [255, 127] := by rfl
